@@ -344,20 +344,26 @@ extern "C" int clock_gettime(clockid_t c, struct timespec *ts) {
     clock_hit("clock_gettime"); return real(c, ts);
 }
 // libm's trigonometric functions as called by the library (through the PLT): FFT twiddle tables are being computed.  The values
-// are libm's own; only the call is a scheduling point for simulated tasks.
+// are libm's own; only the call is a scheduling point for simulated tasks - and only in cold-process runs: whether a thread
+// computes tables at all depends on what the process did before (FFTW keeps trigonometric tables process-wide, the nayuki
+// back-end shares its tables between the live threads), so in a long-lived worker these yields made the number of scheduler
+// steps of a plan depend on the worker's history (5 of 40 sampled plans of the determinism proof had 17-34 steps more in one
+// process than in another, same outputs).  A cold run is one forked process per plan: its history is the plan.
+static std::atomic<int> g_trig_yields{0};
+void sim::set_trig_yields(bool on) { g_trig_yields = on ? 1 : 0; }
 extern "C" double sin(double x) {
     static double (*real)(double) = (double (*)(double)) dlsym(RTLD_NEXT, "sin");
-    if (sched_self() >= 0) yield_at(Y_TABLEINIT);
+    if (g_trig_yields && sched_self() >= 0) yield_at(Y_TABLEINIT);
     return real(x);
 }
 extern "C" double cos(double x) {
     static double (*real)(double) = (double (*)(double)) dlsym(RTLD_NEXT, "cos");
-    if (sched_self() >= 0) yield_at(Y_TABLEINIT);
+    if (g_trig_yields && sched_self() >= 0) yield_at(Y_TABLEINIT);
     return real(x);
 }
 extern "C" void sincos(double x, double *s_, double *c_) {
     static void (*real)(double, double *, double *) = (void (*)(double, double *, double *)) dlsym(RTLD_NEXT, "sincos");
-    if (sched_self() >= 0) yield_at(Y_TABLEINIT);
+    if (g_trig_yields && sched_self() >= 0) yield_at(Y_TABLEINIT);
     real(x, s_, c_);
 }
 extern "C" int gettimeofday(struct timeval *tv, void *tz) {
